@@ -223,8 +223,11 @@ def run(rep: Report, ctx: Any) -> str:
     rep.check(bool(calls) and all(any(k.arg == "quoted" and isinstance(k.value, ast.Constant) and k.value.value is True for k in c_.keywords) for c_ in calls),
               "R01.3", "PropertyProtocol.to_string::quoted", "attribute declarations use unquoted type strings: a lazily imported model class in a "
               "class-level annotation raises NameError at import", where(ts, ts.node))
-    apt = [n for n in mt.tree.find_all(nodes.Assign) if isinstance(n.target, nodes.Name) and n.target.name == "additional_property_type"]
-    rep.check(bool(apt) and "quoted=(not model.additional_properties.is_base_type)" in expr_text(apt[0].node), "R01.3",
+    # the annotation of additional properties, however the template names it: the expression that asks the property for its type string
+    apt = [n for n in mt.tree.find_all(nodes.Assign) if "model.additional_properties.get_type_string(" in expr_text(n.node)] or \
+        [c_ for c_ in mt.tree.find_all(nodes.Call) if expr_text(c_.node) == "model.additional_properties.get_type_string"]
+    rep.check(bool(apt) and all("quoted=(not model.additional_properties.is_base_type)" in expr_text(getattr(a_, "node", a_) if isinstance(a_, nodes.Assign) else a_)
+                                for a_ in apt), "R01.3",
               "model.py.jinja::additional_property_type::quoted", "the additional-properties annotation is not quoted for non-base types",
               where=f"{PKG}/templates/model.py.jinja")
     mp = ix.cls("ModelProperty").methods.get("get_type_string")
@@ -243,7 +246,8 @@ def run(rep: Report, ctx: Any) -> str:
               "quoted=True no longer quotes the class name", where(mp, mp.node))
 
     # ---- R01.4 -------------------------------------------------------------------------------------------------------------------
-    decl = [f for f in top if f.kind == "expr" and f.text.startswith("declare_property(property)")]
+    # (loop variables are canonical: the variable of `for x in ITER` reads `ITER[*]`, see sa/jinja_canon.py)
+    decl = [f for f in top if f.kind == "expr" and f.loops and f.text.startswith(f"declare_property({f.loops[-1]}[*])")]
     rep.check(len(decl) == 2, "R01.4", "model.py.jinja::two-declaration-loops", "expected two declaration passes", where=f"{PKG}/templates/model.py.jinja",
               lhs=len(decl), rhs=2)
     if len(decl) == 2:
@@ -257,8 +261,8 @@ def run(rep: Report, ctx: Any) -> str:
             if ha == hb:
                 ok = False  # not complementary / not exhaustive
             # the first pass must contain exactly the attributes that get no `= ...` : default is none and required
-            no_default = env.get("property.default is none", env.get("(property.default is none)", None))
-            nd = (env.get("property.default is none", False)) and env.get("property.required", False)
+            pv = f"{a.loops[-1]}[*]"
+            nd = (env.get(f"{pv}.default is none", False)) and env.get(f"{pv}.required", False)
             if ha != nd:
                 first_no_default = False
         same_dom = a.loops == b.loops == ("(model.required_properties + model.optional_properties)",)
@@ -268,7 +272,7 @@ def run(rep: Report, ctx: Any) -> str:
                   lhs=[[g for g, _ in a.guards], [g for g, _ in b.guards]], rhs="first pass = (default is none and required), second = complement")
     em = jx.templates.get("endpoint_macros.py.jinja")
     arg = em.macros.get("arguments")
-    pos = [f for f in tplq.frags(arg.body) if f.kind == "expr" and f.text == "parameter.to_string()" and f.loops == ("endpoint.path_parameters",)]
+    pos = [f for f in tplq.frags(arg.body) if f.kind == "expr" and f.loops == ("endpoint.path_parameters",) and f.text == "endpoint.path_parameters[*].to_string()"]
     star = next((f for f in tplq.frags(arg.body) if f.kind == "data" and f.text.strip().startswith("*,")), None)
     if pos and star is not None and pos[0].line < star.line:
         rep.fail("R01.4", "endpoint_macros.py.jinja::arguments::positional-defaults",
